@@ -30,6 +30,28 @@ ABORTING = ("std::process::abort", "std::process::exit", "std::panic::catch_unwi
 ENV_FAULT_SOURCES = PROTECT_FFI + ("injector_core::winapi::FlushInstructionCache",)
 
 
+def null_refused_at_construction(ck, tm, rule):
+    """The public handle type that wraps the internal function pointer is built at one site, its fields are private, and that
+    constructor returns only on the non-null edge of a null test whose other edge diverges without effects (shared by C09 R9.4)."""
+    fp = [(p_, a) for p_, a in tm.facts.adts.items() if a["vis"] == "Public" and len(a["variants"]) == 1 and any(
+        f_["ty"].get("path", "").endswith("FuncPtrInternal") for f_ in a["variants"][0]["fields"])]
+    n = 0
+    for adt, a in fp:
+        sites = aggregate_sites(tm, adt)
+        ck.ob(rule, "%s/single-construction-site" % short(adt), tm.target, len(sites) == 1, "%d construction site(s) of %s" % (len(sites), short(adt)))
+        vis = [f_["vis"] for f_ in a["variants"][0]["fields"]]
+        ck.ob(rule, "%s/fields-not-public" % short(adt), tm.target, all(v != "Public" for v in vis), "field visibilities %s" % vis)
+        for fn, st in sites:
+            n += 1
+            vs = tm.try_variants(fn) or []
+            okr = all(any(c.op in ("ne", "nonnull") for c in guards.true_conds(v.decisions)) for v in vs if v.status == "returned")
+            okd = any(v.status == "diverged" and not any(is_effect(e) for e in v.trace) for v in vs)
+            ck.ob(rule, "%s/null-refused" % short(adt), tm.target, bool(vs) and okr and okd,
+                  "%s: every returning path is on the non-null edge: %s; the null edge diverges: %s" % (short(fn), okr, okd),
+                  "%s:%d" % (st["span"]["file"], st["span"]["line"]))
+    return n
+
+
 def run(ck, models, tier):
     ck.decided, ck.not_decided = DECIDED, NOT_DECIDED
     ck.trusted += ["rustc MIR: elaborated drops and cleanup blocks", "std::thread::panicking() is true while unwinding", "std models"]
@@ -180,20 +202,7 @@ def run(ck, models, tier):
             ck.ob("R5.3", "%s/refusal-diverges-without-effects" % rn, tm.target, bool(ref), "%d refusing path(s) without any effect" % len(ref))
         ck.floor("R5.3", "checked-install-roots", checked, 4, tm.target)
         # FuncPtr constructor: null refused at construction
-        fp = [(p_, a) for p_, a in tm.facts.adts.items() if a["vis"] == "Public" and any(
-            f_["ty"].get("path", "").endswith("FuncPtrInternal") for f_ in a["variants"][0]["fields"]) and len(a["variants"]) == 1]
-        for adt, a in fp:
-            sites = aggregate_sites(tm, adt)
-            ck.ob("R5.3", "%s/single-construction-site" % short(adt), tm.target, len(sites) == 1, "%d construction site(s) of %s" % (len(sites), short(adt)))
-            vis = [f_["vis"] for f_ in a["variants"][0]["fields"]]
-            ck.ob("R5.3", "%s/fields-not-public" % short(adt), tm.target, all(v != "Public" for v in vis), "field visibilities %s" % vis)
-            for fn, st in sites:
-                vs = tm.try_variants(fn) or []
-                okr = all(any(c.op in ("ne", "nonnull") for c in guards.true_conds(v.decisions)) for v in vs if v.status == "returned")
-                okd = any(v.status == "diverged" and not any(is_effect(e) for e in v.trace) for v in vs)
-                ck.ob("R5.3", "%s/null-refused" % short(adt), tm.target, bool(vs) and okr and okd,
-                      "%s: every returning path is on the non-null edge: %s; the null edge diverges: %s" % (short(fn), okr, okd),
-                      "%s:%d" % (st["span"]["file"], st["span"]["line"]))
+        null_refused_at_construction(ck, tm, "R5.3")
         # ---------------- R5.4 fail before write
         for p, func, repl, boolval in roots:
             rn = short(p)
